@@ -178,10 +178,132 @@ func run(w *core.Worker, c Case) {
 	}
 }
 
+
+// ---- bulk monitor: deep stacks (growth and shrink paths of the backing storage)
+
+// BulkCase is a sequence of phases on one stack: k > 0 pushes k fresh values
+// (1, 2, 3, ... so every value is unique), k < 0 pops |k| times.
+type BulkCase struct {
+	Linked bool  `json:"linked"`
+	Phases []int `json:"phases"`
+}
+
+func runBulk(w *core.Worker, c BulkCase) {
+	var impl st
+	var model []int
+	next := 1
+	nm := "stack"
+	if c.Linked {
+		nm = "lstack"
+		impl = stack.NewLinked(next)
+		model = []int{next}
+		next++
+	} else {
+		impl = stack.New[int]()
+	}
+	lastRemoved, maxHeld, steps := 0, 0, 0
+	quick := func(what string) bool {
+		if got := impl.Size(); got != len(model) {
+			w.Violation(nm+".size", fmt.Sprintf("bulk: after %s (operation %d) Size()=%d, model holds %d elements", what, steps, got, len(model)))
+			return false
+		}
+		want := 0
+		if len(model) > 0 {
+			want = model[len(model)-1]
+		}
+		if got := impl.Peek(); got != want {
+			w.Violation(nm+".peek", fmt.Sprintf("bulk: after %s (operation %d) Peek()=%d, model top %d (%d held)", what, steps, got, want, len(model)))
+			return false
+		}
+		return true
+	}
+	probes := func(phase int) bool {
+		cand := map[int]bool{next + 7: false, 0: false}
+		if lastRemoved != 0 {
+			cand[lastRemoved] = false
+		}
+		if n := len(model); n > 0 {
+			cand[model[0]], cand[model[n-1]], cand[model[n/2]] = true, true, true
+		}
+		for v, has := range cand {
+			if got := impl.Search(v); got != has {
+				w.Violation(nm+".search", fmt.Sprintf("bulk: after phase %d Search(%d)=%v, model says %v (%d held)", phase, v, got, has, len(model)))
+				return false
+			}
+		}
+		return true
+	}
+	p := core.Catch(func() {
+		for pi, k := range c.Phases {
+			switch {
+			case k > 0:
+				for ; k > 0; k-- {
+					impl.Push(next)
+					model = append(model, next)
+					next++
+					steps++
+					if !quick("Push") {
+						return
+					}
+				}
+			case k < 0:
+				for ; k < 0; k++ {
+					v := impl.Pop()
+					steps++
+					if len(model) == 0 {
+						if v != 0 {
+							w.Violation(nm+".pop-on-empty", fmt.Sprintf("bulk: operation %d: Pop on an empty stack returned %d", steps, v))
+							return
+						}
+					} else {
+						top := model[len(model)-1]
+						if v != top {
+							below := 0
+							if len(model) >= 2 {
+								below = model[len(model)-2]
+							}
+							if c.Linked && v == below {
+								// known finding (see run): what was removed is decided by the observation below
+								w.Violation("lstack.pop-returns-element-below-top", fmt.Sprintf("bulk: operation %d: Pop returned %d, the top was %d", steps, v, top))
+							} else {
+								w.Violation(nm+".pop-value", fmt.Sprintf("bulk: operation %d: Pop returned %d, model top %d (%d held)", steps, v, top, len(model)))
+								return
+							}
+						}
+						lastRemoved = top
+						model = model[:len(model)-1]
+					}
+					if !quick("Pop") {
+						return
+					}
+				}
+			}
+			if len(model) > maxHeld {
+				maxHeld = len(model)
+			}
+			w.Tick()
+			if !probes(pi) {
+				return
+			}
+		}
+	})
+	if p != nil {
+		w.Violation(nm+".panic:bulk", fmt.Sprintf("bulk: operation %d panicked: %v (%d held)", steps, p, len(model)))
+		return
+	}
+	w.Count("bulk_operations", int64(steps))
+	if maxHeld >= 300 {
+		w.NonTrivial(core.HashString(core.JSON(c)))
+	}
+	if w.WantSample() {
+		w.Sample(map[string]any{"case": c, "max_held": maxHeld, "operations": steps})
+	}
+}
+
 func TestProp(t *testing.T) {
 	r := core.Start(t, "C06")
 	defer r.Finish()
-	r.Rule("cases = operation sequences on stack.Stack[int] and stack.LStack[int] (the linked one starting from its mandatory element) checked against a slice model: every Pop value, Size/Peek/Search of every probe value after every Pop and after the last step (sweep) or every step (random), then a drain that Peeks before each Pop and one Pop on the empty stack; non-trivial = at least 2 operations; distinct by hash of the case")
+	r.Rule("cases = operation sequences on stack.Stack[int] and stack.LStack[int] (the linked one starting from its mandatory element) checked against a slice model: every Pop value, Size/Peek/Search of every probe value after every Pop and after the last step (sweep) or every step (random), then a drain that Peeks before each Pop and one Pop on the empty stack; non-trivial = at least 2 operations; stack-bulk: phases of hundreds to thousands of pushes of unique values and pops (to empty, beyond, almost, partly) with Size/Peek after every operation, every Pop value, membership probes after every phase; non-trivial = at least 300 elements were held at once; distinct by hash of the case")
 
 	alpha := []Op{{"push", 1}, {"push", 2}, {"push", 3}, {K: "pop"}, {K: "peek"}}
 	L := r.Pick(8, 10)
@@ -221,4 +343,40 @@ func TestProp(t *testing.T) {
 			emit(c)
 		}
 	}, run)
+
+	// deep stacks: fill to hundreds/thousands of elements, pop (completely, almost, partly), refill
+	nBulk := r.Pick(48, 1500)
+	core.Monitor(r, "stack-bulk", 0, func(emit func(BulkCase)) {
+		rng := r.Rand("c06-bulk")
+		for i := 0; i < nBulk; i++ {
+			c := BulkCase{Linked: i%2 == 1}
+			top := []int{300, 700, 1500, 3000}[rng.Intn(4)]
+			if c.Linked && top > 1500 {
+				top = 1500 // the linked stack works in linear time
+			}
+			held := 0
+			for ph := rng.Range(3, 8); ph > 0; ph-- {
+				up := rng.Range(top/2, top)
+				c.Phases = append(c.Phases, up)
+				held += up
+				var down int
+				switch rng.Intn(4) {
+				case 0:
+					down = held
+				case 1:
+					down = held + rng.Intn(3)
+				case 2:
+					down = held - rng.Range(1, 40)
+				default:
+					down = rng.Range(held/4, held)
+				}
+				c.Phases = append(c.Phases, -down)
+				held -= down
+				if held < 0 {
+					held = 0
+				}
+			}
+			emit(c)
+		}
+	}, runBulk)
 }
